@@ -274,6 +274,15 @@ def conc_program(P, argsets, mode, seed):
         if "already occupied" in str(e):
             return []          # the known C20 finding (same nested DAG twice): nothing to run concurrently
         return [{"harness_error": "build: " + repr(e)[:120]}]
+    # the property is about calls made after the setup nodes have run: run them first, outside the observation
+    setup_paths = [[j] for j, st in enumerate(P["sites"], 1) if st.get("setup")]
+    if setup_paths:
+        try:
+            pr.PRE_HOOK = None
+            asyncio.run(d.setup()) if mode == "gather" else d.setup()
+        except BaseException as e:  # noqa: BLE001
+            return [{"harness_error": "setup: " + repr(e)[:120]}]
+        pr.PRE_HOOK = pre
     rec = pr.Recorder()
     rec.owner = {}
     orig = rec.__call__
@@ -333,7 +342,9 @@ def conc_program(P, argsets, mode, seed):
         kind, v = outs[t] if outs[t] else ("err", RuntimeError("call did not finish"))
         row = {"given": [pg.encode(x) for x in argsets[t]], "raised": kind == "err", "errclass": pr.errclass(v) if kind == "err" else "",
                "val": pg.encode(v) if kind == "ok" else pg.verr(), "exec": [], "dup": False, "async": mode == "gather", "built": True,
-               "twice": False, "conc": 1 if mode == "threads" else 2, "loop": 0, "ref": pr.plain_call(P, argsets[t])}
+               "twice": False, "conc": 1 if mode == "threads" else 2, "loop": 0, "pre": setup_paths, "ref": pr.plain_call(P, argsets[t])}
+        if row["ref"].get("exec") is not None:
+            row["ref"]["exec"] = [p for p in row["ref"]["exec"] if p not in setup_paths]
         rows.append(row)
     # executed sites are not attributed to the individual calls here (values carry the evidence): exec = expected when the
     # union over all calls is right; a node entered more often than there are calls is reported as dup
@@ -405,7 +416,7 @@ def run_conc(tier, seed):
                 obs.append(row)
     stripped = [pg.strip(P) for P in progs]
     path = os.path.join(common.CACHE, f"e5-conc-{os.getpid()}.json")
-    keys = ("given", "raised", "errclass", "val", "exec", "dup", "async", "built", "twice", "conc", "loop")
+    keys = ("given", "raised", "errclass", "val", "exec", "dup", "async", "built", "twice", "conc", "loop", "pre")
     with open(path, "w") as f:
         json.dump({"progs": stripped, "obs": [{"p": r["p"], **{k: r[k] for k in keys}} for r in obs]}, f)
     try:
